@@ -216,6 +216,12 @@ class ABCTune(object):
       'a#': music_pb2.NoteSequence.KeySignature.A_SHARP,
       'bb': music_pb2.NoteSequence.KeySignature.B_FLAT,
       'b': music_pb2.NoteSequence.KeySignature.B,
+      # Tonics of the 7-flat and 7-sharp signatures (and of their modes) that
+      # are spelled enharmonically.
+      'cb': music_pb2.NoteSequence.KeySignature.B,
+      'fb': music_pb2.NoteSequence.KeySignature.E,
+      'e#': music_pb2.NoteSequence.KeySignature.F,
+      'b#': music_pb2.NoteSequence.KeySignature.C,
   }
 
   SHARPS_ORDER = 'FCGDAEB'
